@@ -64,7 +64,7 @@ func (g *gBuilder) addNode(ty int, wantUnnamed bool) int {
 		}
 	}
 	if utInfos[ty].qual {
-		n.q = []string{"", "a", "b", "c", "a"}[g.r.Intn(5)]
+		n.q = []string{"", "a", "b", "c", "a", "A", "B"}[g.r.Intn(7)]
 	}
 	if utInfos[ty].f1 {
 		n.r = []string{"x", "y", "z"}[g.r.Intn(3)]
@@ -118,7 +118,7 @@ func (g *gBuilder) args(ifaceSlot bool) string {
 		a += ",required=false"
 	}
 	if ifaceSlot && g.r.P(1, 3) {
-		qs := []string{"a", "b", "c", "", "zz"}
+		qs := []string{"a", "b", "c", "", "zz", "A", "C"}
 		k := 1 + g.r.Intn(2)
 		var pick []string
 		for i := 0; i < k; i++ {
@@ -155,6 +155,10 @@ func (g *gBuilder) randomSlots(i int, k int) {
 				}
 			} else {
 				name = g.nameOf(g.r.Intn(len(g.sc.nodes)))
+				if g.r.P(1, 8) {
+					// blanks are part of a name: nothing is registered under the padded one
+					name = []string{" " + name, name + " ", " " + name + " "}[g.r.Intn(3)]
+				}
 			}
 			g.sc.nodes[i].slots[s] = "w" + name + g.args(false)
 		case c < 8: // by name on a slice kind: the container ignores it (no candidates)
@@ -218,6 +222,10 @@ func (g *gBuilder) sprinkle() {
 		if g.r.P(1, 5) {
 			g.sc.nodes[i].cfg = []int{1, 1, 3, 4, 2}[g.r.Intn(5)]
 		}
+	}
+	// a holder whose fields were filled by hand before the start
+	if g.r.P(1, 6) {
+		g.sc.prefill = append(g.sc.prefill, g.r.Intn(len(g.sc.nodes)))
 	}
 	// zero-size components in the population (they are candidates of every Ifc0 / any point)
 	if g.r.P(1, 6) {
@@ -390,6 +398,9 @@ func genMatch(r *hx.Rng) *gScen {
 	}
 	if r.P(1, 3) {
 		g.sc.zs = []int{2, 3, 5, 5}[r.Intn(4)]
+	}
+	if r.P(1, 4) {
+		g.sc.prefill = append(g.sc.prefill, len(g.sc.nodes)-1)
 	}
 	if r.P(1, 8) {
 		g.fault()
@@ -594,6 +605,40 @@ func genReentrant(r *hx.Rng) *gScen {
 	return g.sc
 }
 
+// many components and a definition scanner that fails for every one of them (more failures than any worker pool has slots)
+func genBigScan(r *hx.Rng) *gScen {
+	g := newBuilder(r)
+	n := 34 + r.Intn(14)
+	for i := 0; i < n; i++ {
+		g.addNode(g.randType(func(u utInfo) bool { return !u.pp }), false)
+	}
+	g.sc.scanFail = r.P(3, 4)
+	return g.sc
+}
+
+// a healthy little graph in which ONE by-name point asks for a name that differs from a registered one only by blanks
+// (names are compared verbatim: nothing is registered under the padded name)
+func genPadded(r *hx.Rng) *gScen {
+	g := newBuilder(r)
+	x := g.addNode(g.randType(func(u utInfo) bool { return !u.pp && len(u.ifs) > 0 }), r.P(1, 4))
+	h := g.addNode(g.randType(func(u utInfo) bool { return !u.pp }), r.P(1, 3))
+	name := g.nameOf(x)
+	padded := []string{" " + name, name + " ", " " + name + " ", "  " + name}[r.Intn(4)]
+	opt := ""
+	if r.P(1, 2) {
+		opt = ",required=false"
+	}
+	g.sc.nodes[h].slots[[]string{"A0", "A1", "X0"}[r.Intn(3)]] = "w" + padded + opt
+	if r.P(1, 2) { // and a correct edge next to it
+		g.sc.nodes[h].slots["A2"] = "w" + name
+	}
+	if r.P(1, 3) {
+		k := g.addNode(g.randType(func(u utInfo) bool { return !u.pp }), false)
+		g.edgeByName(k, h, false)
+	}
+	return g.sc
+}
+
 func genDiamond(r *hx.Rng) *gScen {
 	g := newBuilder(r)
 	top := g.addNode(g.randType(func(u utInfo) bool { return !u.lazy }), false)
@@ -740,6 +785,8 @@ func graphGen(rng *hx.Rng, n int, tier string, w *hx.Writer) {
 			tag := "match"
 			if r.P(1, 3) {
 				sc, tag = genForeign(r), "foreign"
+			} else if r.P(1, 4) {
+				sc, tag = genPadded(r), "padded"
 			}
 			if active() {
 				emitGraph(sc, []string{tag}, w)
@@ -757,8 +804,12 @@ func graphGen(rng *hx.Rng, n int, tier string, w *hx.Writer) {
 			count++
 		case k == 15:
 			sc := genSiblings(r)
+			tag := "siblings"
+			if r.P(1, 12) {
+				sc, tag = genBigScan(r), "bigscan"
+			}
 			if active() {
-				emitGraph(sc, []string{"siblings"}, w)
+				emitGraph(sc, []string{tag}, w)
 			}
 			count++
 		case k == 16:
